@@ -213,7 +213,15 @@ pub fn check(c: &mut Case, flags: u32, specs: &[AssetSpec], name: &str) {
     let img = match c.lib("AssetBinary::serialize", || bin.serialize()) {
         None => return,
         Some(Err(e)) => {
-            c.fail("serialize_err", "serialize_err", format!("{}: serialize returned Err({}); {}", name, e, describe()));
+            let unrepresentable = specs.iter().any(|s| {
+                let mut s = s.clone();
+                s.name.as_deref().map(crate::refs::strings::unencodable).unwrap_or(false) || (0..NSTR).any(|i| str_field(&mut s, i).as_deref().map(crate::refs::strings::unencodable).unwrap_or(false))
+            });
+            if unrepresentable {
+                c.outcome("serialize_refused_unencodable_text");
+            } else {
+                c.fail("serialize_err", "serialize_err", format!("{}: serialize returned Err({}); {}", name, e, describe()));
+            }
             return;
         }
         Some(Ok(b)) => b,
@@ -450,7 +458,18 @@ pub fn run(cx: &mut Ctx) {
             super::poison::maybe(c, 9);
             let mut rng = c.rng.clone();
             let nspecs = if miri { rng.range(0, 2) } else { rng.range(0, 20) };
-            let specs: Vec<AssetSpec> = (0..nspecs).map(|_| gen_spec(&mut rng)).collect();
+            let mut specs: Vec<AssetSpec> = (0..nspecs).map(|_| gen_spec(&mut rng)).collect();
+            if !specs.is_empty() && rng.chance(1, 60) {
+                // one string the Shift-JIS encoder cannot express: serialize must refuse it or keep it intact
+                let i = rng.below(specs.len());
+                let u = rng.pick(&crate::refs::strings::UNENCODABLE).to_string();
+                if rng.bool() {
+                    specs[i].name = Some(u);
+                } else {
+                    let k = rng.below(NSTR);
+                    *str_field(&mut specs[i], k) = Some(u);
+                }
+            }
             let flags = rng.u32();
             check(c, flags, &specs, "random");
         });
